@@ -265,6 +265,63 @@ def setter_history(model, ci, res, stats):
     return len(setters)
 
 
+def shared_class_objects(model, ci, res, stats):
+    """A class-body attribute that holds an INSTANCE of a repository class is one object shared by every instance of the
+    solver class and of its subclasses.  A public method that hands one of its own arguments to a method of that object
+    which stores it (`self.solver.set_new_tolerance(new_tolerance)`) lets one solver change what every other solver
+    computes afterwards.  Not shared: an attribute the constructor rebinds to a fresh object on every path start
+    (`self.solver = newton_solver()` at the top level of __init__)."""
+    import ast as _ast
+    n = 0
+    for st in ci.node.body:
+        if not (isinstance(st, _ast.Assign) and len(st.targets) == 1 and isinstance(st.targets[0], _ast.Name)
+                and isinstance(st.value, _ast.Call)):
+            continue
+        r = model.resolve_dotted(ci.module, st.value.func)
+        if r is None or r[0] != 'class':
+            continue
+        ocls = model.get_class(r[1]) if isinstance(r[1], str) else r[1]
+        if ocls is None:
+            continue
+        attr = st.targets[0].id
+        init = ci.methods.get('__init__')
+        rebound = init is not None and any(
+            isinstance(x, _ast.Assign) and any(isinstance(t, _ast.Attribute) and isinstance(t.value, _ast.Name)
+                                               and t.value.id == init.node.args.args[0].arg and t.attr == attr for t in x.targets)
+            and isinstance(x.value, _ast.Call) for x in init.node.body)
+        # storing methods of the shared object's class: self.<a> = <own parameter>
+        storing = {}
+        for mname, m in ocls.methods.items():
+            params = {a.arg for a in m.node.args.args[1:]}
+            for x in _ast.walk(m.node):
+                if isinstance(x, _ast.Assign) and isinstance(x.value, _ast.Name) and x.value.id in params \
+                        and any(isinstance(t, _ast.Attribute) and isinstance(t.value, _ast.Name) for t in x.targets):
+                    storing[mname] = m
+        for mname, m in ci.methods.items():
+            if mname.startswith('_'):
+                continue
+            selfn = m.node.args.args[0].arg
+            params = {a.arg for a in m.node.args.args[1:]}
+            for c in _ast.walk(m.node):
+                if isinstance(c, _ast.Call) and isinstance(c.func, _ast.Attribute) and c.func.attr in storing \
+                        and isinstance(c.func.value, _ast.Attribute) and isinstance(c.func.value.value, _ast.Name) \
+                        and c.func.value.value.id == selfn and c.func.value.attr == attr \
+                        and any(isinstance(a, _ast.Name) and a.id in params for a in c.args):
+                    n += 1
+                    res.obligations += 1
+                    if rebound:
+                        res.discharged += 1
+                        continue
+                    res.add(Finding(PROP, 'C06.shared-object', m.module.relpath, m.qualname,
+                                    '%s.%s is shared by all instances; %s stores its argument in it' % (ci.name, attr, mname),
+                                    "%s.%s = %s(...) is evaluated once, in the class body: every instance of %s and of its subclasses uses "
+                                    "the same object.  The public method %s hands its argument to %s.%s, which stores it there, so calling it "
+                                    "on one solver changes what every other solver returns afterwards"
+                                    % (ci.name, attr, ocls.name, ci.name, mname, ocls.name, c.func.attr),
+                                    line=c.lineno, construct=src_of(c)[:100]))
+    return n
+
+
 UNINIT = ('numpy.empty', 'numpy.empty_like', 'numpy.ndarray')
 
 
@@ -439,6 +496,7 @@ def run(model, tier):
         res.evaluations += 1
         b = check_class(model, ci, res, stats)
         stats['setter_ops'] = stats.get('setter_ops', 0) + setter_history(model, ci, res, stats)
+        stats['shared_object_sites'] = stats.get('shared_object_sites', 0) + shared_class_objects(model, ci, res, stats)
         uninitialised_reads(b, ci, res, stats)
         if any(op != 0 for _, _, op, _ in b.shared_reads):
             res.nontrivial += 1
